@@ -229,7 +229,20 @@ def run(ctx):
                 f = P.c05_solution(o)
                 if f:
                     viol("solve -e %s examples/%s.inkfem wrote a solution that does not meet that error: %s" % (e, ex, f[0]), {"args": ["solve", "-e", e, "examples/%s.inkfem" % ex]})
-    for s in structs + [G.convert_units(structs[0], 10, Fr(1, 10 ** 6))]:     # the last one in MN / mm: densities below 1e-10
+    # bars that already carry a uniform load over their whole length in their own axes (a rafter under snow, a column under wind,
+    # a beam drawn right to left): the weight -w adds is still a global, downward load
+    ul = G.Structure()
+    G.std_mat_sec(ul)
+    ul.nodes = {"a": (Fr(0), Fr(0), (True, True, True)), "b": (Fr(300), Fr(400), (False, False, False)), "c": (Fr(300), Fr(0), (True, True, True)),
+                "d": (Fr(700), Fr(400), (True, True, False))}
+    ul.bars = [{"id": "rafter", "n1": "a", "l1": G.LINKS["rigid"], "n2": "b", "l2": G.LINKS["rigid"], "mat": "steel", "sec": "ipe"},
+               {"id": "column", "n1": "c", "l1": G.LINKS["rigid"], "n2": "b", "l2": G.LINKS["rigid"], "mat": "steel", "sec": "ipe"},
+               {"id": "beam", "n1": "d", "l1": G.LINKS["rigid"], "n2": "b", "l2": G.LINKS["rigid"], "mat": "steel", "sec": "ipe"}]
+    ul.loads = [{"kind": "d", "term": "fy", "local": True, "bar": "rafter", "t0": Fr(0), "v0": Fr("-0.0003"), "t1": Fr(1), "v1": Fr("-0.0003")},
+                {"kind": "d", "term": "fy", "local": True, "bar": "column", "t0": Fr(0), "v0": Fr("0.0002"), "t1": Fr(1), "v1": Fr("0.0002")},
+                {"kind": "d", "term": "fy", "local": True, "bar": "beam", "t0": Fr(0), "v0": Fr("0.0004"), "t1": Fr(1), "v1": Fr("0.0004")}]   # (of the size of the weight per length)
+    ul.meta = {"kind": "uniform-local-loads"}
+    for s in structs + [ul, G.convert_units(structs[0], 10, Fr(1, 10 ** 6))]:     # the last one in MN / mm: densities below 1e-10
         text = s.text()
         w = s.copy()
         for b in s.bars:
